@@ -9,6 +9,8 @@ import ShapeVerif.Lemmas.InferSpec
 import ShapeVerif.Model.ParseCst
 import ShapeVerif.Props.C12
 import ShapeVerif.Lemmas.FromStrTotal
+import ShapeVerif.Lemmas.ParseFuel
+import ShapeVerif.Lemmas.LexFuel
 namespace ShapeVerif
 open Shape
 
@@ -144,5 +146,26 @@ theorem sources_span_faithful (srcs : List (List Char)) (v : String) (a b : Nat)
 does not reduce in the kernel, so no closed `example` is given here; the correspondence run of every
 check evaluates `fromStr` on tens of thousands of rejected texts (e.g. `"\\é"` ↦ `InvalidJson "\\é" 1..4`)
 and compares value and range with the real code. -/
+
+/-! ### no unbounded loop
+
+The model's lexer and parser recurse on a fuel argument, the real `tokenize` loop and the `rule_*`
+functions of the generated parser do not. `lexLoopO` / `rule*O` are twins that *fail* when the fuel
+runs out and are otherwise identical to the model functions. For every string both twins answer —
+and answer the model's result — from the fuel the model starts with: so the model's cut-off is never
+what ends a run, the real loops make at most `|text|` (lexer) and `2·|tokens| + 4` (parser: nested
+calls plus iterations of the two recovery loops) steps, and `fromStr_total` speaks about the
+unbounded recursion. -/
+theorem text_layer_terminates (cs : List Char) :
+    lexLoopO cs.length cs 0 0 0 [] [] = some (tokenize cs) ∧
+    ruleValueO (2 * (tokenize cs).tokens.length + 4) (initState (tokenize cs) (utf8Len cs)) =
+      some (ruleValue (2 * (tokenize cs).tokens.length + 4) (initState (tokenize cs) (utf8Len cs))) :=
+  ⟨tokenize_never_exhausts_fuel cs, parse_never_exhausts_fuel cs⟩
+
+/-- in every coherent parser state `2·|remaining tokens| + 1` nested calls/iterations suffice: each one
+is preceded by the consumption of a token -/
+theorem parser_steps_linear (s : PState) (hc : Coh s) (fuel : Nat) (h : 2 * s.toks.length + 1 ≤ fuel) :
+    ruleValueO fuel s = some (ruleValue fuel s) :=
+  (ruleValue_fuel_irrelevant s hc fuel fuel h h).1
 
 end ShapeVerif
